@@ -9,7 +9,8 @@ import C19
 EXPLANATION = ('C20: In_Units (all overloads): In_Units(q*u, u) = q for u != 0, container overloads equal the scalar overload element by element, the rounding variant is Round(q/u, digits), ragged tables against per-column units exit; '
                'unit constants: Natural_Units.cpp lowered with clang at -O0, -O1 and -O2; the module initialiser is executed from zero-initialised storage with every access to a global recorded: no dynamically initialised constant is read before it has been written (initialisation-order taint), '
                'and after initialisation every derived unit equals its defining product of the stored base constants within 4 ulp (closed query: no free input); '
-               'text import on an abstract file (std::ifstream / getline / operator>> / ignore are environment stubs on a file of h header lines and R x C numbers): Count_Lines counts every line whatever its length, Import_Table returns shape R x C with entry = number x unit of its column, Import_List all numbers x unit.')
+               'text import on an abstract file (std::ifstream / getline / operator>> / ignore are environment stubs on a file of h header lines and R x C numbers): Count_Lines counts every line whatever its length, Import_Table returns shape R x C with entry = number x unit of its column, Import_List all numbers x unit; '
+               'round trip through the abstract file: what the real Export_Table / Export_List write (numbers, tabs, newlines, header of 0..3 lines incl. empty ones) is what the real Import_Table / Import_List read with ignored_initial_lines = header lines written: same shape, every value equal (exact reals).')
 BOUNDS = {'quick': {'sizes': 3, 'opt_levels': ['-O0', '-O1', '-O2']}, 'thorough': {'sizes': 4, 'opt_levels': ['-O0', '-O1', '-O2', '-O3', '-Os']}}
 NOT_DECIDED = ['the TEXT of the round trip Export_* / Import_* (libstdc++ number formatting and parsing, the writers, the file system): not encodable with the tools in this image - the library-side import logic is decided on an abstract file (see explanation)', 'g++ builds (no IR): only clang configurations are examined',
                '(q*u)/u = q bit-precisely: in exact arithmetic only']
@@ -89,44 +90,90 @@ def job_in_units(rows, cols):
 
 # ---- text import: the library's own logic on an abstract file -----------------------------------------------------------------------------------------
 IFS = '_ZNSt14basic_ifstreamIcSt11char_traitsIcEE'; FB = '_ZNSt13basic_filebufIcSt11char_traitsIcEE'
-def file_model(header_len, R, C, T, data_len=None):
-    """environment model of std::ifstream on a file with len(header_len) header lines (given lengths; text, not numbers), then R lines of C numbers T[i][j] each, every line ended by a newline.
-       Stream state: the word at ios_base+32 of the stream object (vbase offset 0 through the interpreter's stream vtable); read cursor and ignored-line count live in the object's own storage."""
-    H = len(header_len); nlines = H + R
-    def init(it, st, a):
-        if '__streams' not in it.gaddr: it._alloc_global(st, '@_ZSt4cerr') if '@_ZSt4cerr' not in it.gaddr else None; it._init_global(st, '@_ZSt4cerr')
-        vt, ct = it.gaddr['__streams']; st.memset(a, 0, 520); st.store(a, 8, vt + 24); st.store(a + 240, 8, ct)
-        vtt = '@_ZTTSt14basic_ifstreamIcSt11char_traitsIcEE'              # construction vtable table used by the inlined destructor: every slot -> the model vtable (vbase offset 0)
+def stream_init(it, st, a):
+    """the stream object as the inlined libstdc++ code reads it: vptr -> model vtable with vbase offset 0, ctype facet for widen(), state word (ios_base+32) good, construction-vtable tables filled alike"""
+    if '__streams' not in it.gaddr:
+        if '@_ZSt4cerr' not in it.gaddr: it._alloc_global(st, '@_ZSt4cerr')
+        it._init_global(st, '@_ZSt4cerr')
+    b = st.find(a, 1); size = min(520, st.objs[b][0] - (a - b)) if b is not None else 520
+    vt, ct = it.gaddr['__streams']; st.memset(a, 0, size); st.store(a, 8, vt + 24); st.store(a + 240, 8, ct)
+    for vtt in ('@_ZTTSt14basic_ifstreamIcSt11char_traitsIcEE', '@_ZTTSt14basic_ofstreamIcSt11char_traitsIcEE'):
         if vtt in it.mod.globals:
             if vtt not in it.gaddr: it._alloc_global(st, vtt)
             for k in range(0, 256, 8):
                 if st.find(it.gaddr[vtt] + k, 8) is not None: st.store(it.gaddr[vtt] + k, 8, vt + 24)
-    def state(st, a, setbits=None):
-        if setbits is not None: st.store(a + 32, 4, setbits)
-        return st.load(a + 32, 4)
-    def ctor(it, args, st, depth): init(it, st, args[0]); st.events.append(('file', 'open')); return [(st, None)]
-    def fb_open(it, args, st, depth): st.events.append(('file', 'open')); return [(st, args[0])]
+OFS = '_ZNSt14basic_ofstreamIcSt11char_traitsIcEE'
+def file_lines(header_len, R, C, T, data_len=None):
+    return [('text', l) for l in header_len] + [('nums', list(T[i]), (data_len[i] if data_len else 3 * C)) for i in range(R)]
+def file_model(header_len, R=None, C=None, T=None, data_len=None, lines=None):
+    """environment model of std::ifstream on a file given as a list of lines: ('text', length) - text that is not a number (an empty line when the length is 0) - or ('nums', [numbers], length).
+       Stream state: the word at ios_base+32 of the stream object; the read position (line, token) and the number of lines handed out by getline live in the object's own storage.
+       The same table models std::ofstream: every number, text and newline written is recorded as an event ('write', kind, value) of the path."""
+    if lines is None: lines = file_lines(header_len, R, C, T, data_len)
+    n = len(lines)
+    def state(st, a, bits): st.store(a + 32, 4, bits)
+    def ctor(it, args, st, depth): stream_init(it, st, args[0]); st.events.append(('file', args[0])); return [(st, None)]
+    def isfile(st, a): return any(e[0] == 'file' and e[1] == a for e in st.events)
+    def fb_open(it, args, st, depth): return [(st, args[0])]
     def ignore(it, args, st, depth):
-        a = args[0]; st.store(a + 100, 4, st.load(a + 100, 4) + 1); return [(st, a)]
+        a = args[0]; st.store(a + 100, 4, st.load(a + 100, 4) + 1); st.store(a + 8, 8, 0); return [(st, a)]
     def extract(it, args, st, depth):
-        a = args[0]; ign = st.load(a + 100, 4); cur = st.load(a + 8, 8)
-        if ign < H and any(l > 0 for l in header_len[ign:]): state(st, a, 4); return [(st, a)]          # header text is not a number: failbit
-        idx = max(ign - H, 0) * C + cur
-        if idx < R * C: st.store(args[1], 8, T[idx // C][idx % C]); st.store(a + 8, 8, cur + 1)
-        else: state(st, a, 6)                                                                            # end of file: eofbit | failbit
+        a = args[0]; ln = st.load(a + 100, 4); col = st.load(a + 8, 8)
+        while ln < n:
+            L = lines[ln]
+            if L[0] == 'text':
+                if is_sym(L[1]) or L[1] > 0: state(st, a, 4); break                                   # text is not a number: failbit
+            elif col < len(L[1]):
+                st.store(args[1], 8, L[1][col]); st.store(a + 100, 4, ln); st.store(a + 8, 8, col + 1); return [(st, a)]
+            ln += 1; col = 0
+        else: state(st, a, 6)                                                                        # end of file: eofbit | failbit
+        st.store(a + 100, 4, min(ln, n)); st.store(a + 8, 8, col)
         return [(st, a)]
     def getline(it, args, st, depth):
         a = args[0]; cur = st.load(a + 8, 8)
-        if cur < nlines:
-            ln = header_len[cur] if cur < H else (data_len[cur - H] if data_len else 3 * C); st.store(args[1] + 8, 8, ln); st.store(a + 8, 8, cur + 1)
+        if cur < n: st.store(args[1] + 8, 8, lines[cur][1] if lines[cur][0] == 'text' else lines[cur][2]); st.store(a + 8, 8, cur + 1)
         else: state(st, a, 6)
         return [(st, a)]
     def clear(it, args, st, depth): st.store(args[0] + 32, 4, args[1]); return [(st, None)]
+    def w_num(it, args, st, depth):
+        if not isfile(st, args[0]): return NotImplemented
+        st.events.append(('write', 'num', args[1])); return [(st, args[0])]
+    def w_text(it, args, st, depth):
+        if not isfile(st, args[0]): return NotImplemented
+        st.events.append(('write', 'text', bytes(st.load(args[1] + k, 1) for k in range(args[2])))); return [(st, args[0])]
+    def w_put(it, args, st, depth):
+        if not isfile(st, args[0]): return NotImplemented
+        st.events.append(('write', 'text', bytes([args[1] & 255]))); return [(st, args[0])]
+    def w_endl(it, args, st, depth):
+        if not isfile(st, args[0]): return NotImplemented
+        st.events.append(('write', 'text', b'\n')); return [(st, args[0])]
+    def w_flush(it, args, st, depth):
+        if not isfile(st, args[0]): return NotImplemented
+        return [(st, args[0])]
     ret_this = lambda it, args, st, depth: [(st, args[0])]; nop = lambda it, args, st, depth: [(st, None)]
     return {'@' + IFS + 'C1Ev': ctor, '@' + IFS + 'C1ERKNSt7__cxx1112basic_stringIcS1_SaIcEEESt13_Ios_Openmode': ctor, '@' + IFS + 'D1Ev': nop, '@' + IFS + 'D2Ev': nop,
+            '@' + OFS + 'C1Ev': ctor, '@' + OFS + 'D1Ev': nop, '@' + OFS + 'D2Ev': nop,
             '@' + FB + '4openEPKcSt13_Ios_Openmode': fb_open, '@' + FB + '5closeEv': ret_this, '@' + FB + 'D2Ev': nop, '@_ZNSt8ios_baseD2Ev': nop, '@_ZNKSt12__basic_fileIcE7is_openEv': lambda it, args, st, depth: [(st, 1)],
             '@_ZNSi6ignoreEli': ignore, '@_ZNSi10_M_extractIdEERSiRT_': extract, '@_ZNSt9basic_iosIcSt11char_traitsIcEE5clearESt12_Ios_Iostate': clear, '@_ZNKSt5ctypeIcE13_M_widen_initEv': nop,
-            '@_ZSt7getlineIcSt11char_traitsIcESaIcEERSt13basic_istreamIT_T0_ES7_RNSt7__cxx1112basic_stringIS4_S5_T1_EES4_': getline}
+            '@_ZSt7getlineIcSt11char_traitsIcESaIcEERSt13basic_istreamIT_T0_ES7_RNSt7__cxx1112basic_stringIS4_S5_T1_EES4_': getline,
+            '@_ZNSo9_M_insertIdEERSoT_': w_num, '@_ZSt16__ostream_insertIcSt11char_traitsIcEERSt13basic_ostreamIT_T0_ES6_PKS3_l': w_text, '@_ZNSo3putEc': w_put,
+            '@_ZSt4endlIcSt11char_traitsIcEERSt13basic_ostreamIT_T0_ES6_': w_endl, '@_ZNSo5flushEv': w_flush}
+def written_lines(st):
+    """the lines of the file a path wrote: numbers and text pieces between newlines"""
+    lines = []; cur = []
+    def close():
+        nums = [x for k, x in cur if k == 'num']; txt = b''.join(x for k, x in cur if k == 'text')
+        lines.append(('nums', nums, 3 * len(nums)) if nums and not txt.strip(b'\t ') else ('text', len(txt)) if not nums else ('mixed', nums, txt))
+    for e in st.events:
+        if e[0] != 'write': continue
+        if e[1] == 'num': cur.append(('num', e[2]))
+        else:
+            parts = e[2].split(b'\n')
+            for pi, part in enumerate(parts):
+                if part: cur.append(('text', part))
+                if pi < len(parts) - 1: close(); cur = []
+    if cur: close()
+    return lines
 def cpath(st):
     a = st.alloc(8)
     for i, b in enumerate(b'f.txt\0'): st.store(a + i, 1, b)
@@ -172,6 +219,58 @@ def job_import(header_len, R, C, with_dims):
             for k in range(R * C): res.append(prove('%s/list-entry[%d,%d]' % (tag, pi, k), p.st.pc, toR(p.st.load(out + 8 * k, 8, True)) == T[k // C][k % C] * U, 10000, mvl, key='C20/import/list'))
     return res
 
+def cstr(st, b):
+    a = st.alloc(len(b) + 1)
+    for i, ch in enumerate(b + b'\0'): st.store(a + i, 1, ch)
+    return a
+def job_roundtrip(header, R, C, with_dims):
+    """Export_Table then Import_Table (Export_List then Import_List) through the abstract file: what the real writer puts out (numbers, tabs, newlines, header) is what the real reader is given, with
+       ignored_initial_lines = the number of header lines written; the result has the shape of the data and every value equals the original (exact reals: (x / unit) * unit = x, unit != 0).
+       The text form of a number is the identity here - six-digit formatting and parsing are outside the model."""
+    res = []; tag = 'roundtrip/%s/%dx%d/%s' % (header.decode().replace('\n', '|') or 'no-header', R, C, 'units' if with_dims else 'plain')
+    X = [[z3.Real('x%d_%d' % (i, j)) for j in range(C)] for i in range(R)]; D = [z3.Real('unit%d' % j) for j in range(C)] if with_dims else []; pre = [d != 0 for d in D]
+    mv = {'case': 'roundtrip', 'header': header.decode(), 'R': R, 'C': C, 'X': [x for r in X for x in r], 'units': D}
+    H = (header.count(b'\n') + 1) if header else 0
+    it = Interp(C19.G['m'], intercept=file_model([], 0, 0, []), limits=Limits(max_paths=600, feas_ms=1000)); st = it.new_state(); st.pc += pre
+    ps = it.execute('@verif_export_table', [cpath(st), R, C, st.put_doubles([x for r in X for x in r]), len(D), st.put_doubles(D) if D else st.alloc(8), cstr(st, header)], st)
+    for pi, p in enumerate(ps):
+        if p.end is not None:
+            res.append(prove('%s/export-returns[%d]' % (tag, pi), p.st.pc, z3.BoolVal(False), 10000, mv, key='C20/roundtrip/table', detail=str(p.end))); continue
+        lines = written_lines(p.st)
+        bad = [l for l in lines if l[0] == 'mixed']
+        if bad: res.append(ob('%s/lines-well-formed[%d]' % (tag, pi), 'candidate', key='C20/roundtrip/table', model=mv, detail='a written line mixes text and numbers: %s' % str(bad[0])[:200])); continue
+        it2 = Interp(C19.G['m'], intercept=file_model([], lines=lines), limits=Limits(max_paths=600, feas_ms=1000)); st2 = it2.new_state(); st2.pc += list(p.st.pc)
+        out = st2.alloc(8 * (R * C + 4)); shp = st2.alloc(8)
+        qs = it2.execute('@verif_import_table', [cpath(st2), len(D), st2.put_doubles(D) if D else st2.alloc(8), H, out, R * C + 4, shp], st2)
+        for qi, q in enumerate(qs):
+            if q.end is not None:
+                res.append(prove('%s/import-returns[%d,%d]' % (tag, pi, qi), q.st.pc, z3.BoolVal(False), 10000, mv, key='C20/roundtrip/table', detail='%s; file lines %s' % (q.end, [(l[0], l[1] if l[0] == 'text' else len(l[1])) for l in lines]))); continue
+            sh = (q.st.load(shp, 4), q.st.load(shp + 4, 4)); okshape = sh == (R, C)
+            res.append(ob('%s/same-shape[%d,%d]' % (tag, pi, qi), 'discharged' if okshape else 'candidate', key='C20/roundtrip/table', model=None if okshape else mv, detail='read back %s, written %d x %d; file lines %s' % (sh, R, C, [(l[0], l[1] if l[0] == 'text' else len(l[1])) for l in lines])))
+            if okshape:
+                for i in range(R):
+                    for j in range(C):
+                        res.append(prove('%s/same-value[%d,%d,%d,%d]' % (tag, pi, qi, i, j), q.st.pc + alg_assumptions(p.st), toR(q.st.load(out + 8 * (i * C + j), 8, True)) == X[i][j], 10000, mv, key='C20/roundtrip/table', tactic='nra', sample=(i == 0 and j == 0 and with_dims and R > 1)))
+    if not ps: res.append(ob(tag + '/reach', 'broken', detail='no path'))
+    # list
+    U = z3.Real('unit'); n = R * C; V = [x for r in X for x in r]; mvl = dict(mv, case='roundtrip-list', unit=U)
+    it = Interp(C19.G['m'], intercept=file_model([], 0, 0, []), limits=Limits(max_paths=600, feas_ms=1000)); st = it.new_state(); st.pc += [U != 0]
+    ps = it.execute('@verif_export_list', [cpath(st), n, st.put_doubles(V), U, cstr(st, header)], st)
+    for pi, p in enumerate(ps):
+        if p.end is not None:
+            res.append(prove('%s/list-export-returns[%d]' % (tag, pi), p.st.pc, z3.BoolVal(False), 10000, mvl, key='C20/roundtrip/list', detail=str(p.end))); continue
+        lines = written_lines(p.st)
+        it2 = Interp(C19.G['m'], intercept=file_model([], lines=lines), limits=Limits(max_paths=600, feas_ms=1000)); st2 = it2.new_state(); st2.pc += list(p.st.pc); out = st2.alloc(8 * (n + 4))
+        qs = it2.execute('@verif_import_list', [cpath(st2), U, H, out, n + 4], st2)
+        for qi, q in enumerate(qs):
+            if q.end is not None:
+                res.append(prove('%s/list-import-returns[%d,%d]' % (tag, pi, qi), q.st.pc, z3.BoolVal(False), 10000, mvl, key='C20/roundtrip/list', detail=str(q.end))); continue
+            okn = (not is_sym(q.ret)) and q.ret == n
+            res.append(ob('%s/list-same-length[%d,%d]' % (tag, pi, qi), 'discharged' if okn else 'candidate', key='C20/roundtrip/list', model=None if okn else mvl, detail='read back %s values, written %d' % (q.ret, n)))
+            if okn:
+                for k in range(n): res.append(prove('%s/list-same-value[%d,%d,%d]' % (tag, pi, qi, k), q.st.pc + alg_assumptions(p.st), toR(q.st.load(out + 8 * k, 8, True)) == V[k], 10000, mvl, key='C20/roundtrip/list', tactic='nra'))
+    return res
+
 def jobs(ctx):
     C19.module(ctx); b = BOUNDS[ctx.tier]; info = {}
     for opt in b['opt_levels']:
@@ -184,6 +283,9 @@ def jobs(ctx):
     for hl in ((), (12,), (12, 7), (12, 0), (0,)):
         for (R, C) in ((1, 1), (2, 3), (3, 2)) if b['sizes'] <= 3 else ((1, 1), (2, 3), (3, 2), (4, 4)):
             for wd in (False, True): J.append((job_import, (hl, R, C, wd)))
+    for hd in (b'', b'# header', b'# line 1\n# line 2', b'# title\n\n# after an empty line', b'# ends with a newline\n'):
+        for (R, C) in ((1, 1), (2, 3), (3, 2)):
+            for wd in (False, True): J.append((job_roundtrip, (hd, R, C, wd)))
     return J
 
 def native_units(ctx): return ctx.native(C19.NATIVE_SRCS, 'NU.cpp')
@@ -202,7 +304,7 @@ def validate(ctx):
 def fl(q): return q2f(q) if isinstance(q, list) else float(q)
 def replay(ctx, o):
     m = o['model'] or {}; key = o['key']
-    if key.startswith('C20/import'):
+    if key.startswith('C20/import') or key.startswith('C20/roundtrip'):
         # a real file with the lines of the model, read by the native Count_Lines / Import_Table / Import_List
         import tempfile, os
         so = C19.native(ctx); d = tempfile.mkdtemp(prefix='c20.', dir=os.path.join(os.path.dirname(os.path.dirname(os.path.abspath(__file__))), '.work')); path = os.path.join(d, 'f.txt')
@@ -210,6 +312,21 @@ def replay(ctx, o):
             try: return q2f(q)
             except Exception: return default
         try:
+            if str(m.get('case', '')).startswith('roundtrip'):
+                R, C = m['R'], m['C']; X = [fnum(q, 1.5 + 0.37 * k) for k, q in enumerate(m['X'])]; U = [fnum(q, 2.0 + j) or 2.0 for j, q in enumerate(m.get('units', []))]; hd = m['header']; H = (hd.count('\n') + 1) if hd else 0
+                if m['case'] == 'roundtrip':
+                    r1 = nat.call(so, 'verif_export_table', [('str', path), ('u32', R), ('u32', C), ('dbl[]', X), ('u32', len(U)), ('dbl[]', U or [0.0]), ('str', hd)], restype='void')
+                    r = nat.call(so, 'verif_import_table', [('str', path), ('u32', len(U)), ('dbl[]', U or [0.0]), ('u32', H), ('dbl[]', [0.0] * (R * C + 4)), ('u64', R * C + 4), ('u32[]', [0, 0])], restype='long')
+                    if r1['status'] != 'ok' or r['status'] != 'ok': return True, 'native Export_Table / Import_Table: %s / %s' % (r1['status'], r['status'])
+                    sh = tuple(r['arrays'][2]); vals = r['arrays'][1][:R * C]
+                    bad = sh != (R, C) or any(abs(a - b) > 2e-5 * max(abs(b), 1e-300) for a, b in zip(vals, X))
+                    return bad, 'native Export_Table then Import_Table (header %r = %d lines, %d x %d values, units %s): shape %s, values %s (written %s)' % (hd, H, R, C, U, sh, vals[:6], X[:6])
+                u = fnum(m.get('unit'), 2.0) or 2.0
+                r1 = nat.call(so, 'verif_export_list', [('str', path), ('u32', R * C), ('dbl[]', X), u, ('str', hd)], restype='void')
+                r = nat.call(so, 'verif_import_list', [('str', path), u, ('u32', H), ('dbl[]', [0.0] * (R * C + 4)), ('u64', R * C + 4)], restype='long')
+                if r1['status'] != 'ok' or r['status'] != 'ok': return True, 'native Export_List / Import_List: %s / %s' % (r1['status'], r['status'])
+                vals = r['arrays'][1][:R * C]
+                return (r['ret'] != R * C or any(abs(a - b) > 2e-5 * max(abs(b), 1e-300) for a, b in zip(vals, X))), 'native Export_List then Import_List (header %r): %d values %s (written %d: %s)' % (hd, r['ret'], vals[:6], R * C, X[:6])
             if m.get('case') == 'count':
                 L = [max(0, int(fnum(q, 1))) for q in m['line_lengths']]
                 open(path, 'w').write(''.join('x' * l + '\n' for l in L))
